@@ -81,6 +81,27 @@ def compact_json(value) -> bytes:
     return json.dumps(value, separators=(",", ":"), ensure_ascii=False).encode("utf-8")
 
 
+def has_insignificant_whitespace(body: bytes) -> bool:
+    """True iff the JSON text has whitespace outside string literals (number formatting and
+    string escaping are free choices of an encoder and are not judged)."""
+    in_str = False
+    esc = False
+    for b in body:
+        if in_str:
+            if esc:
+                esc = False
+            elif b == 0x5C:
+                esc = True
+            elif b == 0x22:
+                in_str = False
+        else:
+            if b == 0x22:
+                in_str = True
+            elif b in (0x20, 0x09, 0x0A, 0x0D):
+                return True
+    return False
+
+
 def canonical_problems(raw: bytes) -> list[str]:
     """Byte-level check of one complete request against the canonical iOS form:
     request line, Host (IPv4 literal or bracketed IPv6, no port), then Content-Length and
@@ -89,39 +110,39 @@ def canonical_problems(raw: bytes) -> list[str]:
     p: list[str] = []
     sep = raw.find(b"\r\n\r\n")
     if sep < 0:
-        return ["no CRLFCRLF terminator"]
+        return ["no-terminator|no CRLFCRLF terminator"]
     head, body = raw[:sep], raw[sep + 4 :]
     if b"\n" in head.replace(b"\r\n", b"") or b"\r" in head.replace(b"\r\n", b""):
-        p.append("bare CR or LF in header block")
+        p.append("bare-cr-lf|bare CR or LF in header block")
     lines = head.split(b"\r\n")
     if not _REQ_LINE.match(lines[0]):
-        p.append(f"request line not canonical: {lines[0]!r}")
+        p.append(f"request-line|request line not canonical: {lines[0]!r}")
     hdrs = lines[1:]
     if not hdrs or not hdrs[0].startswith(b"Host: "):
-        p.append("second line is not 'Host: '")
+        p.append("host-missing|second line is not 'Host: '")
     else:
         host = hdrs[0][6:].decode("latin-1")
         if not (_IPV4.match(host) or _IPV6.match(host)):
-            p.append(f"Host value not an IPv4 literal or bracketed IPv6 literal without port: {host!r}")
+            p.append(f"host-value|Host value not an IPv4 literal or bracketed IPv6 literal without port: {host!r}")
     rest = hdrs[1:]
     if body:
         if len(rest) != 2:
-            p.append(f"with a body exactly Content-Length and Content-Type must follow Host, got {rest!r}")
+            p.append(f"body-headers|with a body exactly Content-Length and Content-Type must follow Host, got {rest!r}")
         else:
             if rest[0] != b"Content-Length: %d" % len(body):
-                p.append(f"Content-Length header wrong/misplaced: {rest[0]!r} for {len(body)} body bytes")
+                p.append(f"content-length|Content-Length header wrong/misplaced: {rest[0]!r} for {len(body)} body bytes")
             if not re.match(rb"^Content-Type: application/(hap\+json|pairing\+tlv8|octet-stream)$", rest[1]):
-                p.append(f"Content-Type header wrong/misplaced: {rest[1]!r}")
+                p.append(f"content-type|Content-Type header wrong/misplaced: {rest[1]!r}")
             if rest[1].endswith(b"hap+json"):
                 try:
-                    val = json.loads(body.decode("utf-8"))
-                    if compact_json(val) != body:
-                        p.append("JSON body is not the compact encoding")
+                    json.loads(body.decode("utf-8"))
+                    if has_insignificant_whitespace(body):
+                        p.append("json-whitespace|JSON body contains insignificant whitespace")
                 except Exception as e:  # noqa: BLE001
-                    p.append(f"JSON body unparsable: {e}")
+                    p.append(f"json-unparsable|JSON body unparsable: {e}")
     else:
         if rest:
-            p.append(f"headers other than Host on a body-less request: {rest!r}")
+            p.append(f"extra-headers|headers other than Host on a body-less request: {rest!r}")
     return p
 
 
